@@ -161,6 +161,24 @@ def check_sleep(case, ctx):
         if not (lo - eps <= s <= hi + eps):
             ctx.violation("sleep.band", f"sleeptime={hi} jitter={case['jitter']}%: interval {s} outside [{lo}, {hi}]", case)
             return
+    # reconfigured while running (a COMMAND_SLEEP task handler assigns client.sleeptime / client.jitter, as the example client
+    # does), then started once more with other values: the band is always the one configured now
+    r2 = random.Random(case["seed"] ^ 0x51EE9)
+    for how in ("attributes", "run"):
+        st2 = r2.choice([0, 1, 1000, 60000, r2.randrange(0, 10**7)])
+        j2 = r2.choice([0, 0, 50, 99, r2.randrange(0, 100)])
+        if how == "attributes":
+            c.sleeptime, c.jitter = st2, j2
+        else:
+            c.run(cfg, dry_run=True, beacon_id=2, sleeptime=st2, jitter=j2)
+        lo2, hi2 = st2 * (1 - j2 / 100), st2
+        eps2 = 1e-9 * max(1, hi2)
+        for i in range(min(case["samples"], 50)):
+            ctx.monitors["sleep.band"] += 1
+            s = c.get_sleep_time()
+            if not (lo2 - eps2 <= s <= hi2 + eps2):
+                ctx.violation("sleep.band", f"reconfigured ({how}) from sleeptime={hi} jitter={case['jitter']}% to sleeptime={st2} jitter={j2}%: interval {s} outside [{lo2}, {hi2}]", case)
+                return
     ctx.ok(fp=("sleep", case["sleeptime"], case["jitter"], case["seed"]), case=case, classes=(f"jitter:{'0' if not case['jitter'] else '99' if case['jitter'] == 99 else 'mid'}",))
 
 
@@ -320,7 +338,7 @@ def check_case(case, ctx):
         raise ValueError(op)
 
 
-COMMANDS = [1, 2, 3, 4, 5, 8, 9, 10, 11, 12, 27, 32, 33, 39, 40, 53, 77, 100, 102]
+COMMANDS = [1, 2, 3, 4, 5, 6, 6, 8, 9, 10, 11, 12, 27, 32, 33, 39, 40, 53, 77, 100, 102]
 UNKNOWN_COMMANDS = [0, 20, 48, 103, 104, 200, 65535]  # ids outside the client's command table
 
 
